@@ -228,6 +228,20 @@ where
         rset: &mut RecordSet,
         n_records: Option<usize>,
     ) -> Option<Result<(), Error>> {
+        let res = self.fill_record_set(rset, n_records);
+        if !matches!(res, Some(Ok(()))) {
+            // The positions may already have been updated, but not the buffer:
+            // make sure that the record set does not expose inconsistent data
+            rset.buf_positions.clear();
+        }
+        res
+    }
+
+    fn fill_record_set(
+        &mut self,
+        rset: &mut RecordSet,
+        n_records: Option<usize>,
+    ) -> Option<Result<(), Error>> {
         debug_assert!(n_records.unwrap_or(usize::MAX) > 0);
         // after read_record_set(), the state is always Positioned, Parsing or Finished
         match self.state {
@@ -262,7 +276,11 @@ where
                 // resume incomplete search after previous read_record_set(), or
                 // after a seek() call.
                 if !try_opt!(self.resume_incomplete_search(pos, is_new)) {
-                    return None;
+                    // end of input: return the records found so far (if any)
+                    if rset.buf_positions.is_empty() {
+                        return None;
+                    }
+                    break;
                 }
             } else {
                 // search the next complete record after `next()`, or in
